@@ -235,7 +235,7 @@ theorem PStage.join {o c d q s pts L} (h : PStage o c d q s pts L) (hn : c.names
       exact hT1
 
 def finalBody : Sel :=
-  .mk [] false finalCols (some (.withRef (.named "prefinal"))) [] none none [] none
+  .mk [] false matrixFinalCols (some (.withRef (.named "prefinal"))) [] none none [] none
     [.orderBy (.raw "fingerprint") .asc, .orderBy (.raw "timestamp_ns") .asc] none
 
 theorem finalizeMatrix_eq (req : Sel) : finalizeMatrix req = finalBody.with_ [(.named "prefinal", req)] := rfl
